@@ -6,6 +6,7 @@ import numpy as np
 
 from ..core import fb, fbs, unfb, close, fingerprint, safe_oracle
 from ..synth import ShellModel
+from .. import runcommon as rc
 
 
 def _mk(N, zeta_list, seed):
@@ -209,6 +210,8 @@ def run(ctx):
     ctx.fingerprints["mudslide/cumulative_sh.py"] = fingerprint("mudslide/cumulative_sh.py", ["hopper", "__init__"])
     ctx.proofs()
     rng = ctx.rng
+    # whole cumulative-FSSH runs against the composed step of the model: snapshots, events, accumulator and threshold
+    rc.run_correspondence(ctx, ctx.budget(10, 250), hops=True, label="cumrun", cls="TrajectoryCum")
     for i in range(ctx.budget(30, 1500)):
         a = {"seed": int(rng.integers(1, 2 ** 31)), "N": int(rng.integers(2, 6)), "n": int(rng.integers(1, 3)), "state": int(rng.integers(0, 5)),
              "dt": float(rng.choice([1.0, 10.0, 40.0])), "steps": int(rng.integers(1, 6)), "option": [None, "tully", "poisson"][i % 3],
